@@ -5,6 +5,19 @@ ROOT = os.path.dirname(os.path.abspath(__file__))
 
 # id -> dict(text, note, technique, design_ref, engine)
 CLAIMED = {
+ "C19": dict(
+    text="Lean 4 theorems: handler_balanced / read_ongoing_unchanged / interrupted_lock_same_as_plain on a thread-local model in which a "
+         "handler (any tree of sections, nested interruptions to any depth) may run between the plain read of the reader word and the "
+         "store of every rcu_read_lock/rcu_read_unlock; and gp_guarantee / gp_litmus proved on the C01 TSO grace-period model extended "
+         "with handler frames (sigPush/sigPop suspend a lock between its load of rcu_gp.ctr and its store; nested sections inside a "
+         "lock that has stored but not returned), so the handler's section gets the full guarantee and the interrupted code's is not "
+         "weakened. Tie: the C01 trace refinement on memb / mb / bp with synthetic signals delivered by the runtime at every shimmed "
+         "event of reader and updater threads (incl. inside synchronize_rcu), depth up to 3; implementation oracle: reader word "
+         "balanced around every handler; interruption classes counted in the evidence. qsbr excluded as documented.",
+    note="Trusted: Lean kernel; handlers run to completion on the interrupted thread; synthetic delivery at shim points (real "
+         "instruction-granularity delivery is not exercised); model and tie of C01; bp signal masking observed as trace events.",
+    technique="Lean 4 structural-induction proof (balanced handler trees) + inductive invariant on the TSO GP model with handler frames; trace refinement with synthetic signal injection",
+    design_ref="§4 C19", engine="gp"),
  "C09": dict(
     text="Lean 4 theorems for every requested size / max / current size: resize_terminates (the do-while loop of _do_cds_lfht_resize reaches "
          "size = least power of two >= the clamped request; fuel 1), resize_diverges_unfixed (record of the repaired defect), and on a "
